@@ -7,10 +7,12 @@ use serde_json::{json, Value};
 pub mod c01;
 pub mod c02;
 pub mod c03;
+pub mod c04;
 pub mod c05;
 pub mod c06;
 pub mod c07;
 pub mod c08;
+pub mod c09;
 pub mod c10;
 pub mod c11;
 pub mod c13;
@@ -41,10 +43,12 @@ pub fn create(id: &str, tier: Tier, seed: u64, scale: u64) -> Option<Box<dyn Mon
         "C01" => Box::new(c01::C01::new(tier, seed, scale)),
         "C02" => Box::new(c02::C02::new(tier, seed, scale)),
         "C03" => Box::new(c03::C03::new(tier, seed, scale)),
+        "C04" => Box::new(c04::C04::new(tier, seed, scale)),
         "C05" => Box::new(c05::C05::new(tier, seed, scale)),
         "C06" => Box::new(c06::C06::new(tier, seed, scale)),
         "C07" => Box::new(c07::C07::new(tier, seed, scale)),
         "C08" => Box::new(c08::C08::new(tier, seed, scale)),
+        "C09" => Box::new(c09::C09::new(tier, seed, scale)),
         "C10" => Box::new(c10::C10::new(tier, seed, scale)),
         "C11" => Box::new(c11::C11::new(tier, seed, scale)),
         "C13" => Box::new(c13::C13::new(tier, seed, scale)),
